@@ -4,9 +4,9 @@ package interp
 
 import (
 	"fmt"
-	"os"
 	"go/token"
 	"go/types"
+	"os"
 	"sort"
 	"strings"
 	"time"
@@ -389,15 +389,16 @@ type Exec struct {
 	fresh    int
 	names    map[string]int
 
-	res     *PathResult
-	harness string
-	ghostT  int64
-	lastNow *smt.Term
+	res      *PathResult
+	harness  string
+	ghostT   int64
+	lastNow  *smt.Term
 	idleHook value
 	inHook   bool
+	co       *coopState
 	interp   *interpreter
-	model   map[string]uint64 // an assignment known to satisfy pc (nil if none is known)
-	redir   map[string]*ssa.Function
+	model    map[string]uint64 // an assignment known to satisfy pc (nil if none is known)
+	redir    map[string]*ssa.Function
 }
 
 type spawn struct {
@@ -747,12 +748,14 @@ func (p *Program) isHarnessPkg(pk *ssa.Package) bool {
 }
 
 type RunOpts struct {
-	MaxSteps      int
-	MaxDecisions  int
-	MaxConcretize int
-	Concrete      map[string]uint64        // non-nil => concrete mode
-	Redirect      map[string]*ssa.Function // callee full name -> harness model (go-model stubs)
-	BlockIsViolation bool // a goroutine blocked forever is reported as violation "no-deadlock" instead of inconclusive
+	MaxSteps          int
+	MaxDecisions      int
+	MaxConcretize     int
+	Concrete          map[string]uint64        // non-nil => concrete mode
+	Redirect          map[string]*ssa.Function // callee full name -> harness model (go-model stubs)
+	BlockIsViolation  bool                     // a goroutine blocked forever is reported as violation "no-deadlock" instead of inconclusive
+	Coop              bool                     // cooperative goroutines (sched.go)
+	UnwindIsViolation bool                     // exceeding the instruction budget is reported as violation "no-livelock"
 }
 
 // RunPath executes harness fn along the path given by prefix.
@@ -798,7 +801,11 @@ func (p *Program) RunPath(fn *ssa.Function, prefix []Decision, c *smt.Ctx, s *sm
 		i.errorsErrorString = ep.Type("errorString").Object().Type()
 	}
 
+	if o.Coop {
+		x.enableCoop()
+	}
 	defer func() {
+		x.endCoop()
 		res.Trail = x.trail
 		res.Pending = x.pending
 		res.Steps = x.steps
@@ -810,6 +817,11 @@ func (p *Program) RunPath(fn *ssa.Function, prefix []Decision, c *smt.Ctx, s *sm
 					res.Panic = "blocked forever: " + r.msg
 					res.Abort = nil
 					x.topViolation(res, "no-deadlock")
+				}
+				if r.kind == AbortUnwind && o.UnwindIsViolation && strings.Contains(r.msg, "instructions") {
+					res.Panic = "no quiescence: " + r.msg
+					res.Abort = nil
+					x.topViolation(res, "no-livelock")
 				}
 			case targetPanic:
 				res.Panic = describePanic(r.v)
